@@ -3,6 +3,7 @@ package interpreter
 import (
 	"github.com/ah-naf/borno/ast"
 	"github.com/ah-naf/borno/environment"
+	"github.com/ah-naf/borno/utils"
 )
 
 type Callable interface {
@@ -37,6 +38,9 @@ func (f *Function) Call(i *Interpreter, arguments []interface{}) (interface{}, e
 		}
 		if signal.Type != ControlFlowNone {
 			return nil, nil // You can later add support for return values.
+		}
+		if utils.HadRuntimeError {
+			return nil, nil // Stop the body after a runtime error
 		}
 	}
 	return nil, nil
